@@ -302,7 +302,14 @@ def main(tier):
             status, got, passed, err = run_forced(order, known)
             nforced += 1
             if status == 97:
-                raise MachineryError("forced order %r is infeasible on the binary: %s" % (order, err))
+                # the orders come from the protocol model, whose main thread publishes before it first asks: a binary
+                # that cannot pass its points in such an order asks before it has published (or never publishes)
+                v = Violation("forced-order:infeasible", "order %s, which the protocol allows, cannot be taken by the binary "
+                              "(%s): the main thread's publication and first query are not in the protocol's order"
+                              % (",".join(order), (err or "").strip()[-160:]), None, None, None, None,
+                              {"DELTA_VERIF_SCHED": order, "known": known})
+                viols.append(v)
+                continue
             if passed[:len(order)] != order:
                 raise MachineryError("binary did not pass the H4 points in the forced order: wanted %r got %r"
                                      % (order, passed))
